@@ -19,9 +19,9 @@ from .harness import Ctx
 
 class Opaque:
     """python stand-in for an opaque object of the model; == follows the model's equivalence classes"""
-    def __init__(self, term, cls):
-        self.term = term; self.cls = cls
-    def __eq__(self, o): return isinstance(o, Opaque) and o.cls == self.cls
+    def __init__(self, term, cls, selfne=False):
+        self.term = term; self.cls = cls; self.selfne = selfne       # selfne: the model says this object is != to itself (like NaN)
+    def __eq__(self, o): return isinstance(o, Opaque) and o.cls == self.cls and not self.selfne and not o.selfne
     def __ne__(self, o): return not self.__eq__(o)
     def __hash__(self): return hash(('opaque', self.cls))
     def __repr__(self): return f'<obj {self.term} ~{self.cls}>'
@@ -38,6 +38,7 @@ class Concretizer:
         self.m = model
         self.fresh_objs = itertools.count()
         self.py_terms = {}        # id(python object) -> (object, term)
+        self.by_term = {}         # str(term) -> python object: one object per opaque / NaN model value, so `is` follows the model
 
     def ev(self, t):
         return self.m.eval(t, model_completion=True)
@@ -62,6 +63,11 @@ class Concretizer:
         if d.eq(V.VReal):
             a = t.arg(0)
             if z3.is_algebraic_value(a): a = a.approx(20)
+            if is_true(self.ev(nan_r(t.arg(0)))):
+                # the model marks this float as not equal to itself: a NaN (one object per model value)
+                if str(t) not in self.by_term:
+                    o = float('nan'); self.by_term[str(t)] = o; self.py_terms[id(o)] = (o, t)
+                return self.by_term[str(t)]
             return float(fractions.Fraction(a.numerator_as_long(), a.denominator_as_long()))
         if d.eq(V.VStr): return t.arg(0).as_string()
         if d.eq(V.VBytes): return self.bytes_(t.arg(0))
@@ -77,7 +83,9 @@ class Concretizer:
             return [rs.state.markers.STATE_NOTSET, rs.state.markers.STATE_SET, rs.state.markers.STATE_CLEARED][t.arg(0).as_long() % 3]
         if d.eq(V.VObj):
             cls = str(self.ev(ocanon(t.arg(0))))
-            o = Opaque(t, cls); self.py_terms[id(o)] = (o, t); return o
+            if str(t) not in self.by_term:
+                o = Opaque(t, cls, selfne=is_true(self.ev(selfne_o(t.arg(0))))); self.by_term[str(t)] = o; self.py_terms[id(o)] = (o, t)
+            return self.by_term[str(t)]
         if d.eq(V.VRef):
             o = Opaque(t, 'ref' + str(t.arg(0))); self.py_terms[id(o)] = (o, t); return o
         raise Unsupported(f'cannot concretize {t}')
